@@ -16,7 +16,7 @@ open Carquet.Spec.Cursor (Row)
 /-! ### rows of the decoded pages -/
 
 theorem rows_of_parts (leaf : LeafInfo) : ∀ (parts : List (List Entry)),
-    (∀ p ∈ parts, p ≠ [] ∧ ∀ e ∈ p, wellFormedEntry leaf e = true) →
+    (∀ p ∈ parts, ∀ e ∈ p, wellFormedEntry leaf e = true) →
     (∀ p ∈ (parts.map decodedOfEntries).map (fun d => some (cursorPage d)),
         ∃ q, p = some q ∧ PageOk leaf.maxDef q) ∧
     (rowsOfPages leaf.maxDef ((parts.map decodedOfEntries).map (fun d => some (cursorPage d)))).map (·.defLevel) =
@@ -28,13 +28,13 @@ theorem rows_of_parts (leaf : LeafInfo) : ∀ (parts : List (List Entry)),
     (rowsOfPages leaf.maxDef ((parts.map decodedOfEntries).map (fun d => some (cursorPage d)))).length = parts.flatten.length
   | [], _ => by simp [rowsOfPages]
   | p :: r, h => by
-    obtain ⟨hne, hwf⟩ := h p (by simp)
+    have hwf := h p (by simp)
     obtain ⟨i1, i2, i3, i4, i5⟩ := rows_of_parts leaf r (fun x hx => h x (by simp [hx]))
-    have hok := pageOk_entries leaf p hwf hne
+    have hok := pageOk_entries leaf p hwf
     have hl : (cursorPage (decodedOfEntries p)).defs.length ≤ (cursorPage (decodedOfEntries p)).reps.length := by
-      rw [hok.2.1]; exact Nat.le_refl _
+      rw [hok.1]; exact Nat.le_refl _
     have hv : nn leaf.maxDef (cursorPage (decodedOfEntries p)).defs ≤ (cursorPage (decodedOfEntries p)).vals.length := by
-      rw [hok.2.2.1]; exact Nat.le_refl _
+      rw [hok.2.1]; exact Nat.le_refl _
     refine ⟨?_, ?_, ?_, ?_, ?_⟩
     · intro x hx
       simp only [List.map_cons, List.mem_cons] at hx
@@ -52,7 +52,7 @@ theorem rows_of_parts (leaf : LeafInfo) : ∀ (parts : List (List Entry)),
       rw [List.take_of_length_le (by simp)]
     · simp only [List.map_cons, rowsOfPages, List.filterMap_append, i4, List.flatten_cons]
       unfold rowsOfPage
-      rw [filterMap_val_pageRows _ _ _ _ hl hv, ← hok.2.2.1, List.take_length]
+      rw [filterMap_val_pageRows _ _ _ _ hl hv, ← hok.2.1, List.take_length]
       rfl
     · simp only [List.map_cons, rowsOfPages, List.length_append, i5, List.flatten_cons]
       unfold rowsOfPage
@@ -63,7 +63,7 @@ theorem fill_nil_zero {β : Type} : fill ([] : List β) 0 = [] := by simp [fill]
 
 /-- **the column reader over the decoded pages**: one `read_batch` of all entries -/
 theorem readBatch_parts (leaf : LeafInfo) (ch : ColumnReader.Chunk Bytes) (parts : List (List Entry))
-    (hparts : ∀ p ∈ parts, p ≠ [] ∧ ∀ e ∈ p, wellFormedEntry leaf e = true)
+    (hparts : ∀ p ∈ parts, ∀ e ∈ p, wellFormedEntry leaf e = true)
     (hpages : ch.pages = (parts.map decodedOfEntries).map (fun d => some (cursorPage d)))
     (hmd : ch.maxDef = leaf.maxDef) (hnv : ch.numValues = (parts.flatten.length : Int))
     (hsmall : parts.flatten.length < 2147483648) (wd wr : Bool) :
@@ -108,21 +108,33 @@ theorem readBatch_parts (leaf : LeafInfo) (ch : ColumnReader.Chunk Bytes) (parts
 
 /-! ### the chunk -/
 
+/-- the pages the iteration loads, in terms of the entries they stand for -/
+theorem livePages_parts (ps : List (RPage × Decoded)) (parts : List (List Entry))
+    (hmap : ps.map (·.2) = parts.map decodedOfEntries) :
+    (livePages ps).map (fun q => some (cursorPage q.2)) =
+      ((liveBy List.length parts).map decodedOfEntries).map (fun d => some (cursorPage d)) := by
+  have h1 : (livePages ps).map (·.2) = liveBy (fun d : Decoded => d.defs.length) (ps.map (·.2)) :=
+    (liveBy_map (fun q : RPage × Decoded => q.2.defs.length) (fun d : Decoded => d.defs.length) (·.2) (fun _ => rfl) ps).symm
+  have h2 : liveBy (fun d : Decoded => d.defs.length) (parts.map decodedOfEntries) =
+      (liveBy List.length parts).map decodedOfEntries :=
+    liveBy_map List.length (fun d : Decoded => d.defs.length) decodedOfEntries (fun p => by simp [decodedOfEntries]) parts
+  rw [← h2, ← hmap, ← h1, List.map_map]
+  rfl
+
 /-- what `C06_impl_reads_reference` asks of one chunk beyond admissibility: carquet's limits -/
 structure ChunkClaim (mode : Mode) (leaf : LeafInfo) (cl : ChunkLayout) (es : Chunk) : Prop where
   adm : ChunkAdm cl
   depth : chunkExtrasDepthOk cl = true
-  nonEmpty : ∀ pl ∈ cl.pages, 0 < pl.count
   noBoolDict : cl.dict.isSome = true → leaf.ptype ≠ .boolean
   leafOk : LeafHyp leaf
   window : mode = .fread → chunkWindowOk leaf cl es = true
 
 theorem pagesBytes_length_ge : ∀ (ps : List (RPage × Decoded)) (L : Libs) (verify : Bool) (mode : Mode) (c : Col) (dict : Option Dict),
-    (∀ q ∈ ps, DataPageOk L verify mode c dict q.1 q.2 ∧ q.2.defs ≠ []) → ps.length ≤ (pagesBytes ps).length
+    (∀ q ∈ ps, DataPageOk L verify mode c dict q.1 q.2) → ps.length ≤ (pagesBytes ps).length
   | [], _, _, _, _, _, _ => by simp
   | q :: r, L, verify, mode, c, dict, h => by
     have ih := pagesBytes_length_ge r L verify mode c dict (fun x hx => h x (by simp [hx]))
-    have hq := (h q (by simp)).1
+    have hq := h q (by simp)
     have hpos : 1 ≤ q.1.hb.length := by
       have := hq.parses.any []
       exact Carquet.Proofs.ReaderSteps.parsePageHeaderC_size _ _ this
@@ -168,8 +180,8 @@ theorem chunk_read (L : Libs) (verify : Bool) (mode : Mode) (leaf : LeafInfo) (c
   unfold Carquet.Impl.Reader.Claim.chunkExtrasDepthOk at hdepth
   simp only [Bool.and_eq_true, List.all_eq_true] at hdepth
   obtain ⟨⟨⟨_, _⟩, hpd⟩, hdd⟩ := hdepth
-  have hpl : ∀ pl ∈ cl.pages, PageAdm pl ∧ pl.comp.codec = cl.codec ∧ pageExtrasDepthOk pl = true ∧ 0 < pl.count :=
-    fun pl hpl' => ⟨hcl.pages pl hpl', hcodecs pl hpl', hpd pl hpl', hclaim.nonEmpty pl hpl'⟩
+  have hpl : ∀ pl ∈ cl.pages, PageAdm pl ∧ pl.comp.codec = cl.codec ∧ pageExtrasDepthOk pl = true :=
+    fun pl hpl' => ⟨hcl.pages pl hpl', hcodecs pl hpl', hpd pl hpl'⟩
   -- the file around the chunk
   have hfile' : pre ++ (cl.gapBefore ++ dp.bytes ++ pages.bytes) ++ post = (pre ++ cl.gapBefore) ++ dp.bytes ++ pages.bytes ++ post := by
     simp [List.append_assoc]
@@ -207,22 +219,17 @@ theorem chunk_read (L : Libs) (verify : Bool) (mode : Mode) (leaf : LeafInfo) (c
     have hfeq : pre ++ (cl.gapBefore ++ [] ++ pages.bytes) ++ post = pre ++ cl.gapBefore ++ dictBytes none ++ pagesBytes ps ++ post := by
       simp [dictBytes, hb, List.append_assoc]
     have hpg : (chunkOf Fixes.all L verify mode (pre ++ (cl.gapBefore ++ [] ++ pages.bytes) ++ post) (colOfLeaf leaf cm)).pages =
-        (parts.map decodedOfEntries).map (fun d => some (cursorPage d)) := by
+        ((liveBy List.length parts).map decodedOfEntries).map (fun d => some (cursorPage d)) := by
       unfold chunkOf
       simp only
-      rw [hfeq, hchunk, ← hmap, List.map_map]
-      rfl
-    have hpartsOk : ∀ p ∈ parts, p ≠ [] ∧ ∀ e ∈ p, wellFormedEntry leaf e = true := by
-      intro p hp
-      refine ⟨?_, fun e he => hwf e (by rw [← hparts]; exact List.mem_flatten.mpr ⟨p, hp, he⟩)⟩
-      have hmem : decodedOfEntries p ∈ ps.map (·.2) := by rw [hmap]; exact List.mem_map.mpr ⟨p, hp, rfl⟩
-      obtain ⟨q, hq, hq2⟩ := List.mem_map.mp hmem
-      have := (hall q hq).2
-      rw [hq2] at this
-      intro h0; subst h0; exact this rfl
+      rw [hfeq, hchunk, livePages_parts ps parts hmap, List.map_map]
+    have hpartsOk : ∀ p ∈ liveBy List.length parts, ∀ e ∈ p, wellFormedEntry leaf e = true := by
+      intro p hp e he
+      exact hwf e (by rw [← hparts]; exact List.mem_flatten.mpr ⟨p, liveBy_mem _ _ _ hp, he⟩)
+    have hparts' : (liveBy List.length parts).flatten = es := by rw [liveBy_flatten, hparts]
     have := readBatch_parts leaf (chunkOf Fixes.all L verify mode (pre ++ (cl.gapBefore ++ [] ++ pages.bytes) ++ post) (colOfLeaf leaf cm))
-      parts hpartsOk hpg rfl (by simp only [chunkOf, colOfLeaf, hcm2, hparts]) (by rw [hparts]; omega) wd wr
-    rw [hparts] at this
+      (liveBy List.length parts) hpartsOk hpg rfl (by simp only [chunkOf, colOfLeaf, hcm2, hparts']) (by rw [hparts']; omega) wd wr
+    rw [hparts'] at this
     exact this
   | some d =>
     rw [hdict] at hdp hpages hcm3
@@ -275,22 +282,17 @@ theorem chunk_read (L : Libs) (verify : Bool) (mode : Mode) (leaf : LeafInfo) (c
       ((pre ++ cl.gapBefore ++ dictBytes (some (dpage, dictOf leaf d.values)) ++ pagesBytes ps ++ post).length + 1)
       (by simp only [List.length_append]; omega)
     have hpg : (chunkOf Fixes.all L verify mode (pre ++ (cl.gapBefore ++ dp.bytes ++ pages.bytes) ++ post) (colOfLeaf leaf cm)).pages =
-        (parts.map decodedOfEntries).map (fun d => some (cursorPage d)) := by
+        ((liveBy List.length parts).map decodedOfEntries).map (fun d => some (cursorPage d)) := by
       unfold chunkOf
       simp only
-      rw [hfeq, hchunk, ← hmap, List.map_map]
-      rfl
-    have hpartsOk : ∀ p ∈ parts, p ≠ [] ∧ ∀ e ∈ p, wellFormedEntry leaf e = true := by
-      intro p hp
-      refine ⟨?_, fun e he => hwf e (by rw [← hparts]; exact List.mem_flatten.mpr ⟨p, hp, he⟩)⟩
-      have hmem : decodedOfEntries p ∈ ps.map (·.2) := by rw [hmap]; exact List.mem_map.mpr ⟨p, hp, rfl⟩
-      obtain ⟨q, hq, hq2⟩ := List.mem_map.mp hmem
-      have := (hall q hq).2
-      rw [hq2] at this
-      intro h0; subst h0; exact this rfl
+      rw [hfeq, hchunk, livePages_parts ps parts hmap, List.map_map]
+    have hpartsOk : ∀ p ∈ liveBy List.length parts, ∀ e ∈ p, wellFormedEntry leaf e = true := by
+      intro p hp e he
+      exact hwf e (by rw [← hparts]; exact List.mem_flatten.mpr ⟨p, liveBy_mem _ _ _ hp, he⟩)
+    have hparts' : (liveBy List.length parts).flatten = es := by rw [liveBy_flatten, hparts]
     have := readBatch_parts leaf (chunkOf Fixes.all L verify mode (pre ++ (cl.gapBefore ++ dp.bytes ++ pages.bytes) ++ post) (colOfLeaf leaf cm))
-      parts hpartsOk hpg rfl (by simp only [chunkOf, colOfLeaf, hcm2, hparts]) (by rw [hparts]; omega) wd wr
-    rw [hparts] at this
+      (liveBy List.length parts) hpartsOk hpg rfl (by simp only [chunkOf, colOfLeaf, hcm2, hparts']) (by rw [hparts']; omega) wd wr
+    rw [hparts'] at this
     exact this
 
 end Carquet.Proofs.ImplReads
